@@ -7,6 +7,7 @@ import (
 	"fmt"
 	"strconv"
 	"strings"
+	"sync"
 	"time"
 
 	"git.sr.ht/~rockorager/vaxis"
@@ -80,7 +81,53 @@ func saved(s term.VerifSaved) string {
 	return fmt.Sprintf("%d;%d;%s;%s;%d;%s;%s", s.Row, s.Col, b01(s.Decawm), b01(s.Decom), s.CursorStyle, cs(s), Style(s.Style))
 }
 
-var defaultTabs []int
+var (
+	defaultTabs []int
+	tabsOnce    sync.Once
+)
+
+// Job is one case for RunCases.
+type Job struct {
+	ID          string
+	W, H        int
+	Prefix, Ops []string
+}
+
+// Result of one case.
+type Result struct {
+	Lines    [][2]string
+	Outcome  string
+	PanicMsg string
+}
+
+// RunCases executes the jobs on `workers` goroutines and returns the results in job order
+// (deterministic output).
+func RunCases(jobs []Job, workers int) []Result {
+	// make sure the default tab stops are captured before going parallel
+	t := &Term{inline: true}
+	t.New(1, 1)
+	t.Close()
+	res := make([]Result, len(jobs))
+	var wg sync.WaitGroup
+	ch := make(chan int, len(jobs))
+	for i := range jobs {
+		ch <- i
+	}
+	close(ch)
+	for k := 0; k < workers; k++ {
+		wg.Add(1)
+		go func() {
+			defer wg.Done()
+			for i := range ch {
+				j := jobs[i]
+				l, o, p := RunCase(j.W, j.H, j.Prefix, j.Ops, 0)
+				res[i] = Result{l, o, p}
+			}
+		}()
+	}
+	wg.Wait()
+	return res
+}
 
 func isDefaultTabs(t []int) bool {
 	if defaultTabs == nil || len(t) != len(defaultTabs) {
@@ -270,10 +317,19 @@ type Term struct {
 	Timeout time.Duration
 	// PanicMsg of the last panic.
 	PanicMsg string
+	// inline: no per-operation watchdog goroutine (the caller watches the whole case).
+	inline bool
 }
 
 // guarded runs f with recovery and a watchdog. Result "", "panic" or "hang".
 func (t *Term) guarded(f func()) string {
+	if t.inline {
+		if p, msg := hx.Guard(f); p {
+			t.PanicMsg = msg
+			return "panic"
+		}
+		return ""
+	}
 	done := make(chan string, 1)
 	go func() {
 		p, msg := hx.Guard(f)
@@ -308,9 +364,7 @@ func (t *Term) New(w, h int) string {
 		return r
 	}
 	st := t.VT.VerifSnapshot()
-	if defaultTabs == nil {
-		defaultTabs = append([]int{}, st.TabStops...)
-	}
+	tabsOnce.Do(func() { defaultTabs = append([]int{}, st.TabStops...) })
 	return "ev=0 " + SnapshotFull(st)
 }
 
@@ -351,6 +405,97 @@ func (t *Term) Close() {
 		t.VT.VerifClose()
 	}
 	t.VT = nil
+}
+
+// RunCase executes `new w h`, the silent prefix and then ops on a fresh emulator inside ONE watched
+// goroutine and returns the lines (op, impl) to emit. A case that makes no progress for `timeout`
+// is cut off with the result `hang` for the operation that did not return.
+func RunCase(w, h int, prefix, ops []string, timeout time.Duration) (lines [][2]string, outcome string, panicMsg string) {
+	if timeout == 0 {
+		timeout = 3 * time.Second
+	}
+	var mu sync.Mutex
+	var out [][2]string
+	cur := fmt.Sprintf("new %d %d", w, h)
+	progress := make(chan struct{}, 1)
+	done := make(chan struct{})
+	t := &Term{inline: true}
+	emit := func(op, res string) {
+		mu.Lock()
+		out = append(out, [2]string{op, res})
+		mu.Unlock()
+		select {
+		case progress <- struct{}{}:
+		default:
+		}
+	}
+	setCur := func(op string) {
+		mu.Lock()
+		cur = op
+		mu.Unlock()
+	}
+	go func() {
+		defer close(done)
+		res := t.New(w, h)
+		if t.Dead {
+			emit(cur, res)
+			return
+		}
+		if len(prefix) == 0 {
+			emit(cur, res)
+		} else {
+			for _, op := range prefix {
+				setCur(op)
+				res, _ = t.Apply(op)
+				if t.Dead {
+					emit(op, res)
+					return
+				}
+			}
+			emit("adopt", res)
+		}
+		for _, op := range ops {
+			setCur(op)
+			res, ok := t.Apply(op)
+			if !ok {
+				emit(op, "bad-op")
+				return
+			}
+			emit(op, res)
+			if t.Dead {
+				return
+			}
+		}
+		t.Close()
+	}()
+	timer := time.NewTimer(timeout)
+	defer timer.Stop()
+	for {
+		select {
+		case <-done:
+			mu.Lock()
+			defer mu.Unlock()
+			oc := ""
+			if t.Dead && len(out) > 0 {
+				oc = out[len(out)-1][1]
+			}
+			return out, oc, t.PanicMsg
+		case <-progress:
+			if !timer.Stop() {
+				select {
+				case <-timer.C:
+				default:
+				}
+			}
+			timer.Reset(timeout)
+		case <-timer.C:
+			mu.Lock()
+			defer mu.Unlock()
+			res := append([][2]string{}, out...)
+			res = append(res, [2]string{cur, "hang"})
+			return res, "hang", ""
+		}
+	}
 }
 
 // Apply runs one op line; ok=false if the op is not understood.
